@@ -22,13 +22,14 @@ CLAIMED = {
         "composition (ReadBytes), CRC strength, ScanVolumeFileFrom. " + TRUST,
    design="DESIGN.md §4 C02"),
  "C06": dict(
-   text="Proof-level kernel: ghost lemmas (Go functions behind the verif tag) execute the real LocateData / locateOffset / "
-        "ToShardIdAndOffset symbolically and prove that, for every .dat size D <= 8 TiB and every offset, the EC read path (which only sees "
-        "10 x shard size) addresses exactly the shard position given by the encoder's layout function from the statement (production block sizes "
-        "and the scaled 10000/100 sizes); a third lemma proves the tiling of multi-interval reads (k-th interval, no block crossing, total length).",
-   note="Bounded part (reported as bounded in the evidence): the multi-interval lemma is for reads of at most 2.5 small blocks (<= 4 intervals), "
-        "any D and offset. Not decided here: encodeDatFile/WriteDatFile loops against the layout function (I/O), Reed-Solomon reconstruction "
-        "(library), rebuildEcFiles. " + TRUST,
+   text="Proof-level kernel: (1) the real LocateData is verified with an inductive loop invariant (unbounded read size): the cursor always stands at "
+        ".dat position offset+consumed, every appended interval stays inside one block, records the row count (datSize-1)/(10*large) and ends where "
+        "the cursor is; (2) ghost lemmas (Go functions behind the verif tag) run the real ToShardIdAndOffset / LocateData symbolically and prove that "
+        "for every .dat size D <= 8 TiB and every offset the EC read path, which only sees 10 x shard size, addresses exactly the shard position of the "
+        "encoder's layout function from the statement (production sizes and the scaled 10000/100 sizes); (3) the row count derived from 10 x shard size "
+        "equals the encoder's row count.",
+   note="Not decided here: encodeDatFile/WriteDatFile loops against the layout function (file I/O), Reed-Solomon reconstruction (library), "
+        "rebuildEcFiles; that every (not only the last) appended interval keeps its value relies on LocateData being append-only. " + TRUST,
    design="DESIGN.md §4 C06"),
 }
 
